@@ -14,7 +14,7 @@ FAMILY = "diode"
 TREE = json.load(open(os.path.join(SPEC, "diode", "tree_state.json")))
 
 OWN_EVENTS = {
-    "C10": {"WRet", "DStart", "DEnd", "Alert", "EndBlocked", "WStart"},
+    "C10": {"WRet", "DStart", "DEnd", "Alert", "EndBlocked", "WStart", "PBlocked"},
     "C11": {"CloseStart", "CloseRet"},
     "C12": {"Quiesce", "Stuck"},
 }
